@@ -415,7 +415,7 @@ class World:
             return evalr(w["r"]) if evalr else self.objs[w["r"]]
         return self.lit(("op", i, "wf"), w, "wf")
 
-    def exec_op(self, seq, i, op, evalr=None):
+    def exec_op(self, seq, i, op, evalr=None, strict_index=False):
         """issue call #i on `seq`; with `evalr` (heap id -> python value) every
         Parametrized argument is replaced by its evaluated value"""
 
@@ -434,7 +434,7 @@ class World:
         elif k == "target_index":
             if evalr:
                 # the reference resolves indices itself, against the declared order
-                seq.target(by_index(seq, V(op["qubits"])), op["channel"])
+                seq.target(by_index(seq, V(op["qubits"]), strict_index), op["channel"])
             else:
                 seq.target_index(V(op["qubits"]), op["channel"])
         elif k == "delay":
@@ -449,7 +449,7 @@ class World:
             seq.phase_shift(V(op["phi"]), *V(op.get("targets", [])), basis=op.get("basis", "digital"))
         elif k == "phase_shift_index":
             if evalr:
-                seq.phase_shift(V(op["phi"]), *by_index(seq, V(op.get("targets", []))), basis=op.get("basis", "digital"))
+                seq.phase_shift(V(op["phi"]), *by_index(seq, V(op.get("targets", [])), strict_index), basis=op.get("basis", "digital"))
             else:
                 seq.phase_shift_index(V(op["phi"]), *V(op.get("targets", [])), basis=op.get("basis", "digital"))
         elif k in ("enable_eom", "modify_eom"):
@@ -575,7 +575,7 @@ class World:
         return ev, user
 
 
-def by_index(seq, idx):
+def by_index(seq, idx, strict=False):
     """qubit ids denoted by indices: position in the register's (declared) order"""
     ids = list(seq.register.qubit_ids)
     single = not isinstance(idx, (list, tuple))
@@ -583,6 +583,8 @@ def by_index(seq, idx):
     for i in ([idx] if single else idx):
         if isinstance(i, float) and not float(i).is_integer():
             raise IndexError("not an index")
+        if strict and int(i) < 0:
+            raise IndexError("negative index")
         out.append(ids[int(i)])
     return out
 
